@@ -32,6 +32,73 @@ def kf_docs():
     return d_same, d_mixed, d2
 
 
+def directed_reference_duplicates(ctx):
+    """Two pipelines writing one object promise and two connections of one import targeting one object, in every
+    pair of reference spellings (id / alias) and both array orders; plus the distinct controls.  Oracle: the
+    property statement itself (duplicates never accepted; distinct identifiers never reported as duplicates)."""
+    import itertools, os
+
+    def action(i):
+        return {"id": i, "name": "act %d" % i, "object_promise": "object_promise:%d" % i, "description": "d", "party": "party:{P}",
+                "operation": {"include": ["name"]}}
+
+    def pipeline(i, promise, var, to):
+        return {"id": i, "name": "pipe %d" % i, "object_promise": promise, "variables": [{"name": var, "type": "NUMERIC", "initial": 0}],
+                "output": [{"from": var, "to": to}]}
+    base = {"standard": "c10", "terms": [], "parties": [{"id": 0, "name": "P"}],
+            "object_types": [{"id": 0, "name": "T", "attributes": [{"name": "name", "type": "STRING"}, {"name": "n", "type": "NUMERIC"}, {"name": "m", "type": "NUMERIC"}]}],
+            "object_promises": [{"id": 4, "name": "first", "object_type": "object_type:{T}"}, {"id": 7, "name": "4", "object_type": "object_type:{T}"}],
+            "actions": [dict(action(4), id=0), dict(action(7), id=1)], "checkpoints": [], "thread_groups": [], "pipelines": []}
+    docs = []
+    spell = {4: ["object_promise:4", "object_promise:{first}"], 7: ["object_promise:7", "object_promise:{4}"]}
+    for a, b in itertools.product(spell[4], repeat=2):
+        d = copy.deepcopy(base)
+        d["pipelines"] = [pipeline(0, a, "$x", "n"), pipeline(1, b, "$y", "m")]
+        docs.append(("two pipelines write one object promise (%s / %s)" % (a, b), d, True))
+    for a, b in itertools.product(spell[4], spell[7]):
+        for order in (0, 1):
+            d = copy.deepcopy(base)
+            d["pipelines"] = [pipeline(0, a, "$x", "n"), pipeline(1, b, "$y", "m")][::1 if order == 0 else -1]
+            docs.append(("two pipelines on two object promises (%s / %s); the name of one is the decimal id of the other" % (a, b), d, False))
+    f = os.path.join(ctx.repo_copy, "schemas", "test", "native_checkpoint_to_imported_action.json")
+    imp = os.path.join(ctx.repo_copy, "schemas", "test", "basic_import.json")
+    if os.path.exists(f) and os.path.exists(imp):
+        nat, isc = json.load(open(f)), json.load(open(imp))
+        cp = copy.deepcopy(nat["checkpoints"][0])
+        cp["id"], cp["alias"] = 55, "second native checkpoint"
+        cp["dependencies"][0]["compare"]["operator"] = "DOES_NOT_EQUAL"
+        nat["checkpoints"].append(cp)
+        a1 = next(a for a in isc["actions"] if a["id"] == 1)
+        a0 = next(a for a in isc["actions"] if a["id"] == 0)
+        c0 = isc["checkpoints"][0]
+        fn = nat["imports"][0]["file_name"]
+        sp = {"a1": ["schema:{%s}.action:1" % fn, "schema:{%s}.action:{%s}" % (fn, a1["name"])],
+              "a0": ["schema:{%s}.action:0" % fn, "schema:{%s}.action:{%s}" % (fn, a0["name"])],
+              "c0": ["schema:{%s}.checkpoint:%d" % (fn, c0["id"]), "schema:{%s}.checkpoint:{%s}" % (fn, c0["alias"])]}
+        for key in ("a1", "c0"):
+            for a, b in itertools.product(sp[key], repeat=2):
+                d = copy.deepcopy(nat)
+                d["imports"][0]["connections"] = [{"to_ref": a, "add_dependency": "checkpoint:0"}, {"to_ref": b, "add_dependency": "checkpoint:55"}]
+                docs.append(("two connections of one import target one object (%s / %s)" % (a, b), d, True))
+        for a, b in itertools.product(sp["a1"], sp["c0"]):
+            d = copy.deepcopy(nat)
+            d["imports"][0]["connections"] = [{"to_ref": a, "add_dependency": "checkpoint:0"}, {"to_ref": b, "add_dependency": "checkpoint:55"}]
+            docs.append(("two connections of one import with different targets (%s / %s)" % (a, b), d, False))
+    pool = impl.Pool(ctx, 4)
+    res = pool.validate_many([d for _, d, _ in docs])
+    pool.close()
+    n_bad = 0
+    for (what, d, dup), r in zip(docs, res):
+        dup_reported = any("duplicate" in e or "cannot specify the same" in e for e in r["errors"])
+        if dup and r["outcome"] == "accept" and n_bad < 3:
+            n_bad += 1
+            ctx.violation({"what": "a duplicate is accepted: " + what, "document": d, "implementation": r})
+        elif not dup and (dup_reported or r["outcome"] == "raise") and n_bad < 3:
+            n_bad += 1
+            ctx.violation({"what": "distinct identifiers are reported as duplicates: " + what, "document": d, "implementation": r})
+    return len(docs), sum(1 for (_, _, dup), r in zip(docs, res) if dup), sum(1 for r in res if r["outcome"] == "accept")
+
+
 def run(ctx):
     ok, thms, log = kernel.proof_step(ctx)
     rng = random.Random(ctx.seed)
@@ -62,6 +129,8 @@ def run(ctx):
     items += engine.make_mutant_items(ctx, rng, 250 if quick else 2500, owners=("C10",))
     ev3 = engine.run_items(ctx, items)
     engine.report(ctx, items, "T3 correspondence: duplicates injected into whole documents vs Coq model")
+    n_dir, n_dup, n_acc = directed_reference_duplicates(ctx)
+    ctx.coverage["directed_reference_duplicates"] = {"documents": n_dir, "with_duplicate": n_dup, "accepted": n_acc}
     # ---- known findings
     d_same, d_mixed, d2 = kf_docs()
     pool = impl.Pool(ctx, 2)
